@@ -46,6 +46,7 @@ func runC14(c *Ctx) {
 	c.ruleChannelsLive("R14.2")
 	c.ruleListenerHarmless("R14.3")
 	c.ruleStatusStrings("R14.4")
+	c.ruleContextRetiredAtomically("R14.5")
 }
 
 func orderedSubseq(effects, need []string) bool {
@@ -495,6 +496,8 @@ func runC15(c *Ctx) {
 	c.ruleSelectionDequeues("R15.6")
 	c.ruleLenComparators("R15.4")
 	c.ruleBindingOrder("R15.5")
+	// the selector's cursor lives in the queue manager: a copy of it loses every advance
+	c.ruleNoStateCopies("R15.7")
 }
 
 func (c *Ctx) ruleRegisteredOnce(rule string) {
@@ -651,6 +654,33 @@ func (c *Ctx) ruleCursor(rule string) {
 					}
 				}
 				c.Rep.check(good, rule, f.Short(), "cursor update", c.P.pos(as), "cursor = (cursor+1) % len(items), or 0", "the round-robin cursor must advance by exactly one modulo the number of items (or be reset to 0)")
+				if tv := f.Info().Types[rhs]; tv.Value != nil && tv.Value.ExactString() == "0" {
+					// a reset is only needed (and only fair) where items are removed: it keeps the cursor in bounds. A
+					// function that only ever appends to the items has no reason to touch the cursor, and resetting it
+					// there sends the rotation back to the first queue whenever a queue is bound
+					removes := false
+					ast.Inspect(f.Body, func(m ast.Node) bool {
+						as2, ok := m.(*ast.AssignStmt)
+						if !ok {
+							return true
+						}
+						for j, l2 := range as2.Lhs {
+							if selField(f.Info(), l2) != fItems || j >= len(as2.Rhs) {
+								continue
+							}
+							grow := false
+							if call, ok := ast.Unparen(as2.Rhs[j]).(*ast.CallExpr); ok && resolveCallee(f.Info(), call).Builtin == "append" && len(call.Args) >= 1 && selField(f.Info(), call.Args[0]) == fItems {
+								grow = true
+							}
+							if !grow {
+								removes = true
+							}
+						}
+						return true
+					})
+					c.Rep.check(removes, rule, f.Short(), "cursor reset where no item is removed", c.P.pos(as), "cursor reset only together with the removal of an item",
+						f.Short()+" resets the round-robin cursor although it does not remove an item: every call (e.g. each further Bind on a running worker) sends the rotation back to the first-bound queue, later queues are starved")
+				}
 			}
 			return true
 		})
@@ -925,4 +955,64 @@ func binOp2(n ast.Node) (*ast.BinaryExpr, token.Token) {
 		return binOp(e)
 	}
 	return nil, token.ILLEGAL
+}
+
+// ruleContextRetiredAtomically: the listener of a run decides "is this still my context?" by comparing under the
+// worker's lock (R14.3). That comparison only protects the next run if the previous context is cancelled in the same
+// critical section (write mode) in which the worker's context field is replaced: a cancel that happens before the
+// replacement, outside that section, lets the old listener wake up, still find its own context installed, and stop
+// the worker that is being restarted.
+func (c *Ctx) ruleContextRetiredAtomically(rule string) {
+	R := c.R
+	c.Rep.rule(rule, "E2 path + lock bracket", "wherever a lifecycle method replaces the worker's context, the previous cancel function is called inside the same write-locked section, before the replacement", 1)
+	if R.Listener == nil || R.FCtx == "" {
+		c.Rep.ok(rule, "no context listener goroutine", "", "nothing to check", false)
+		return
+	}
+	n := 0
+	for name, f := range c.lifecycleMethods() {
+		v := c.vocab([]string{"cancel", "withcancel(ctx)", "set(ctx)", "make(ctx)"}, nil)
+		sr := v.seq(rule, false)
+		base := sr.classify
+		sr.classify = func(fr *Frame, call *ast.CallExpr, ce *Callee, args []Value) *callEvent {
+			if l, op := mutexOp(fr.Fn.Info(), call, ce); op != "" && l == R.FMx {
+				return &callEvent{Name: "lock" + op, Atomic: true}
+			}
+			return base(fr, call, ce, args)
+		}
+		rel := sr.relevant
+		sr.relevant = func(g *Func) bool { return rel == nil || rel(g) }
+		for _, sg := range sr.segments(f) {
+			if sg.Kind != "path" {
+				continue
+			}
+			wi := sg.index("withcancel(ctx)")
+			if wi < 0 {
+				continue
+			}
+			n++
+			// the write-locked section that contains the replacement
+			start := -1
+			for i := 0; i < wi; i++ {
+				switch sg.Syms[i] {
+				case "lockW":
+					start = i
+				case "lock-W":
+					start = -1
+				}
+			}
+			ci := -1
+			for i := 0; i < wi; i++ {
+				if sg.Syms[i] == "cancel" {
+					ci = i
+				}
+			}
+			good := start >= 0 && ci > start
+			c.Rep.check(good, rule, name, "previous context cancelled outside the section that replaces it", sg.End, "lock, cancel, replace, unlock",
+				name+" replaces the worker's context on a path where the previous cancel function is not called inside the same write-locked section, before the replacement: the previous run's listener can observe its context cancelled while it is still installed, and stops the worker that is being restarted ["+strings.Join(sg.Syms, " ")+"]")
+		}
+	}
+	if n == 0 {
+		c.Rep.ok(rule, "no lifecycle method replaces the context", "", "nothing to check", false)
+	}
 }
